@@ -364,7 +364,16 @@ def _run_program(prog, problems, s, sched_ref, f, con, twin, W, H, kind, auto, t
         import re
 
         vis_file = "".join(SGR.visible(t) if "\x1b" in t else t for _, t in f.writes)
-        rec = "".join(exports) + con.export_text()
+        # a clearing export returns everything recorded since the previous one: the exports are blocks of the record. A thread may be preempted between taking its
+        # block and returning, so the order in which the calls *returned* says nothing: the blocks are put in the order of the file by their first line
+        file_markers = re.findall(r"M\d\d[a-d]", vis_file)
+        pos = {m: i for i, m in enumerate(file_markers)}
+
+        def first_pos(block):
+            ms = re.findall(r"M\d\d[a-d]", block)
+            return pos.get(ms[0], len(pos)) if ms else len(pos)
+
+        rec = "".join(sorted(exports, key=first_pos)) + con.export_text()
         if display is None and not exports and not any(o[0] == "export" for ops in prog["threads"] for o in ops) and rec != vis_file:
             problems.append(("record", "C11/record/content", "export_text() %r differs from the file %r (schedule %r)" % (rec, vis_file, s.trace[:6])))
         elif re.findall(r"M\d\d[a-d]", rec) != re.findall(r"M\d\d[a-d]", vis_file):
